@@ -174,11 +174,11 @@ def r3_r5(ctx, F, hub):
             continue
         cb, ct = cas[0]
         o_cur = fl.origins(ct['args'][0])
-        cur_ok = bool(o_cur) and all(o.kind == 'call' and o.key == hub.current_hash for o in o_cur)
+        cur_ok = hub.is_current(o_cur)
         # the hashed path is the live destination
         path_ok = False
         for o in o_cur:
-            if o.kind == 'call' and o.bb is not None:
+            if o.kind == 'call' and o.bb is not None and o.key in hub.current_reads():
                 path_ok = hub.path_class(b, b.blocks[o.bb]['term']['args'][0]) == 'live'
         ctx.check(cur_ok and path_ok, 'C03.R3', '%s:current-read-inside' % handler, 'cas_decide(current_hash(&dst) read in the region, ..)',
                   'the `current` compared by cas_decide is not the hash of the live path read inside the locked region (read before taking the lock?)', term_loc(b, cb))
@@ -224,7 +224,7 @@ def r3_r5(ctx, F, hub):
         # the operation, or (delete only) the edge on which the path is known to be absent already
         absent_e = set()
         for ib, it in fl.calls(lambda c: c in ('std::option::Option::<T>::is_some', 'std::option::Option::<T>::is_none')):
-            if all(o.kind == 'call' and o.key == hub.current_hash for o in fl.origins(it['args'][0])):
+            if hub.is_current(fl.origins(it['args'][0])):
                 oc2 = fl.outcomes(ib)
                 absent_e |= oc2.get('false' if callee(it).endswith('is_some') else 'true', set())
         for name, field, val, verb in (('PutResult', 'committed', 1, 'rename'), ('DeleteResult', 'deleted', 1, 'remove_file')):
